@@ -443,6 +443,34 @@ def r4_packet(program, folder, rep):
             data = ("param", ps[5]) if len(ps) > 5 else None
             okc = WORD is not None and data is not None and \
                 chunked(WORD, data, 4, const)
+    if elem is None:
+        # the bulk form: all words unpacked at once and packed back
+        pb = plain(body)
+        UNPACK = ("attr", ("global", "struct"), "unpack")
+        data = ("param", ps[5]) if len(ps) > 5 else None
+
+        def counted(t, prefix):
+            """``t`` == '<prefix>{}I'.format(n) / '<prefix>%dI' % n -> n"""
+            if t[0] == "call" and t[1][0] == "attr" and \
+                    t[1][2] == "format" and t[1][1][0] == "const" and \
+                    len(t[2]) == 1 and t[1][1][1] in (
+                        prefix + "{}I", prefix + "{0}I", prefix + "{:d}I"):
+                return t[2][0]
+            if t[0] == "binop" and t[1] == "Mod" and \
+                    t[2] == ("const", prefix + "%dI"):
+                return t[3]
+            return None
+        m = match(("call", PACK, (V("f"), ("star", ("call", UNPACK, (
+            V("g"), V("w")), ()))), ()), pb)
+        if m is None:
+            raise AnalysisError("boot_packet: the byte swap of the payload "
+                                "is in a form that is not analysed")
+        n1, n2 = counted(m["f"], "!"), counted(m["g"], "<")
+        n1 = n1 or counted(m["f"], ">")
+        okw = n1 is not None and n1 == n2
+        okc = okw and m["w"] == data and n1 == (
+            "binop", "FloorDiv", ("call", ("global", "len"), (data,), ()),
+            ("const", 4))
     rep.check(okw, "C20-R4", inst, "each word is unpacked little-endian "
               "('<I') and re-packed big-endian ('!I')",
               construct="byte swap", node=fn)
